@@ -68,6 +68,9 @@ class LoopRec(object):
         self.brk = brk
         self.cont = cont
         self.break_envs = []
+        # loop with an else clause: break jumps past it (set by st_For / st_While)
+        self.brk_else = None
+        self.brk_else_envs = None
 
 
 class CoreMixin(object):
